@@ -62,3 +62,10 @@ Qed.
 Lemma f21_float_witness :
   ratio_valid 10 0x1.3333333333333p-2%float = true /\ n_landmarks_nat 10 0x1.3333333333333p-2%float = Some 3.
 Proof. vm_compute. split; reflexivity. Qed.
+
+(* the same request under the old and the current validate(): accepted before fix F21, rejected now *)
+Lemma f21_validate_witness :
+  lmds_validate_old 10 5 0x1.3333333333333p-2%float = true /\
+  lmds_validate 10 5 0x1.3333333333333p-2%float = false /\
+  lmds_validate 10 3 0x1.3333333333333p-2%float = true.
+Proof. vm_compute. repeat split; reflexivity. Qed.
